@@ -10,6 +10,7 @@ import numpy
 
 from mpv import arr, ref, cmdgen
 
+ANCHORS = ['mpilot/libraries/eems/fuzzy.py:CvtToFuzzy.execute', 'mpilot/libraries/eems/fuzzy.py:CvtFromFuzzy.execute', 'mpilot/libraries/eems/fuzzy.py:CvtToBinary.execute', 'mpilot/libraries/eems/basic.py:Normalize.execute', 'mpilot/libraries/eems/basic.py:NormalizeZScore.execute', 'mpilot/libraries/eems/basic.py:NormalizeCat.execute', 'mpilot/libraries/eems/basic.py:NormalizeCurve.execute', 'mpilot/libraries/eems/basic.py:NormalizeMeanToMid.execute', 'mpilot/libraries/eems/basic.py:NormalizeCurveZScore.execute', 'mpilot/libraries/eems/fuzzy.py:CvtToFuzzyMeanToMid.execute']   # repository functions the workload must enter (reported as anchors_reached / anchors_missed)
 LEVEL = "exploration"
 RULE = ("the 14 existing Cvt*/Normalize* commands x arrays with >=2 distinct valid values (int64/float64, masks, rank 1-3) x "
         "thresholds asc/desc/inside/outside the data range, defaults with both directions, category tables hitting/missing the data, "
